@@ -18,6 +18,7 @@
 #include <eventpp/utilities/scopedremover.h>
 #include <eventpp/utilities/counterremover.h>
 #include <eventpp/utilities/conditionalremover.h>
+#include <eventpp/utilities/anydata.h>
 
 #include <algorithm>
 #include <deque>
@@ -815,10 +816,79 @@ struct HTTarget : Target
 	}
 };
 
+// ================================================================== AnyData arguments in a queue (C17 under faults)
+struct ADTarget : Target
+{
+	typedef eventpp::AnyData<64> Any;
+	typedef TPayloadT<200> Big;
+	typedef eventpp::EventQueue<int, void(const Any &)> Q;
+	struct Listener { TCallback cb; explicit Listener(int id) : cb(id) {} void operator() (const Any & a) const { if(a.isType<TPayload>()) cb(a.get<TPayload>()); else if(a.isType<Big>()) cb(a.get<Big>()); else cb(-1); } };
+	std::unique_ptr<Q> q;
+	std::deque<int> pending;
+	int nextEid, processing;
+	std::vector<int> seen;
+
+	ADTarget(uint64_t seed, const char * n) : Target(seed, n), nextEid(100), processing(0) {}
+	void build() override { q.reset(new Q()); callbackSink() = this; q->appendListener(3, Listener(1)); }
+	void destroy() override {
+		callbackSink() = nullptr;
+		q.reset();
+		if(! dead && ledger().liveCount(K_PAYLOAD) != 0) fail("destroy:held-object-leaked", num(ledger().liveCount(K_PAYLOAD)) + " held object(s) alive after the queue was destroyed");
+		if(! dead && ledger().liveCount(K_CB) != 0) fail("destroy:callback-leaked", "listener instances alive after destruction");
+	}
+	void onCall(int, const ArgPack & args, MutInts &) override {
+		HarnessScope hs;
+		if(dead) return;
+		log("   listener sees held object " + args.str());
+		seen.push_back((int)args.fp[0]);
+		{ Lib l; faultPoint(F_CB_INVOKE); }
+	}
+	void verify(const char * op, bool afterException) {
+		if(dead || processing) return;
+		const std::string w = afterException ? ":after-exception" : ":after-success";
+		if(Access::queueSize(*q) != pending.size()) { fail(std::string(op) + w + ":pending-events-differ-from-model", num((long long)Access::queueSize(*q)) + " pending, model says " + num((long long)pending.size())); return; }
+		if(q->emptyQueue() != pending.empty()) { fail(std::string(op) + w + ":emptyQueue-wrong", "emptyQueue with " + num((long long)pending.size()) + " pending"); return; }
+		if(ledger().liveCount(K_PAYLOAD) != (long)pending.size()) { fail(std::string(op) + w + ":held-objects-leaked-or-lost", num(ledger().liveCount(K_PAYLOAD)) + " live held objects, " + num((long long)pending.size()) + " events pending"); return; }
+		for(size_t i = 0; i < pending.size(); ++i) if(ledger().liveOf(K_PAYLOAD, pending[i]) != 1) { fail(std::string(op) + w + ":held-object-instances", "object of e" + num(pending[i]) + " has " + num(ledger().liveOf(K_PAYLOAD, pending[i])) + " live instances"); return; }
+	}
+	void step() override {
+		const uint32_t c = rng.below(100);
+		if(c < 55) {
+			const int eid = nextEid++;
+			const bool big = rng.chance(1, 2), rv = rng.chance(1, 2);
+			log(std::string("enqueue e") + num(eid) + (big ? " large (heap)" : " small (inline)") + (rv ? " from a temporary" : " from an lvalue"));
+			const int out = attempt(big ? "anydata.enqueue.large" : "anydata.enqueue.small", [&]() {
+				if(big) { if(rv) q->enqueue(3, Big(eid)); else { Big b(eid); q->enqueue(3, b); } }
+				else { if(rv) q->enqueue(3, TPayload(eid)); else { TPayload b(eid); q->enqueue(3, b); } }
+			});
+			if(out == O_OK) pending.push_back(eid);
+			verify("anydata.enqueue", out != O_OK);
+		}
+		else if(c < 85) {
+			const bool one = rng.chance(1, 2);
+			log(one ? "processOne" : "process");
+			std::vector<int> batch;
+			if(! pending.empty()) { if(one) { batch.push_back(pending.front()); pending.pop_front(); } else { batch.assign(pending.begin(), pending.end()); pending.clear(); } }
+			seen.clear();
+			++processing;
+			const int out = attempt(one ? "anydata.processOne" : "anydata.process", [&]() { if(one) q->processOne(); else q->process(); });
+			--processing;
+			if(out == O_OK && seen != batch) { fail("anydata.process:held-values", "listener saw" + ids(seen) + ", model says" + ids(batch)); return; }
+			verify("anydata.process", out != O_OK);
+		}
+		else {
+			log("clearEvents");
+			const int out = attempt("anydata.clearEvents", [&]() { q->clearEvents(); });
+			if(out == O_OK) pending.clear();
+			verify("anydata.clearEvents", out != O_OK);
+		}
+	}
+};
+
 // ------------------------------------------------------------------ executor
 typedef std::unique_ptr<Target> TargetPtr;
 #ifndef VF_CFG_MASK
-#define VF_CFG_MASK 0xff
+#define VF_CFG_MASK 0x1ff
 #endif
 #define VF_KIND(n) (((VF_CFG_MASK) >> (n)) & 1)
 static TargetPtr makeTarget(int kind, uint64_t seed)
@@ -849,10 +919,13 @@ static TargetPtr makeTarget(int kind, uint64_t seed)
 #if VF_KIND(7)
 	case 7: return TargetPtr(new HTTarget(seed, "heter"));
 #endif
+#if VF_KIND(8)
+	case 8: return TargetPtr(new ADTarget(seed, "anydata"));
+#endif
 	default: return TargetPtr();
 	}
 }
-enum { NKINDS = 8 };
+enum { NKINDS = 9 };
 
 // replay the history `seed` of `nops` steps; arm the k-th fault point of step `at` (at < 0: none); optional second fault
 static void replay(int kind, uint64_t seed, int nops, int at, long k, int at2, long k2, std::vector<long> * pointsPerStep)
